@@ -172,7 +172,7 @@ pub fn e2(id: &str) -> Option<E2Def> {
                 quick_points: 40,
                 rule: "programs of inserts, removes, batches (incl. records larger than the 8 KiB journal buffer), clears, persist calls, rotations/flush steps (journal rotation via position scale), reopens before the fault (recovered keyspaces), automatic journal persist and — for the fail-stop clauses (1) and (2) only, since an acknowledged write is then by contract not yet persisted — manual journal persist at database or keyspace level, all three database flavours; for journal-file call index n (thorough: every n; quick: a seeded sample) x fault kind {EIO on write, ENOSPC on write, true short write then ENOSPC, EIO on fsync/fdatasync} x {one-shot, sticky}, plus plain short writes (half of the bytes accepted, no error; once or on every write: nothing may fail and everything acknowledged must be recovered) the program runs to completion under the interposer; oracle: (1) the foreground write operation during which the fault fired returns an error, (2) every write-kind operation attempted afterwards returns an error, (3) after a fault-free reopen the state equals the acknowledged state or that plus the whole failed operation; non-trivial = the fault fired inside an operation and >= 1 further write was attempted afterwards; distinct by (program hash, fault spec)",
                 assumptions: vec![
-                    "single foreground thread (several writer threads are not exercised by this check)",
+                    "generated programs run on a single foreground thread with stepped workers; several writer threads are exercised by separate sampled runs (fault at a random journal call, large memtables so that every journal call happens in a foreground operation)",
                     "faults are injected on journal (*.jnl) files only; table-file errors are lsm-tree's domain",
                 ],
             }
